@@ -96,15 +96,50 @@ def _one(ctx, loop, spec):
     ctx.count(f"kind_{kind}")
     if seq_of(raw) != seq:
         ctx.violation("frame-carries-other-sequence-number", {"spec": spec, "raw": raw}, f"frame carries {seq_of(raw)} not {seq}")
+    # forged / garbage frames that claim the same sender arrive first (lifted counters, bad MAC, wrong key): over any such history
+    # the genuine frame still has to be accepted
+    forged_seen = []
+    for fkind, lift, salt in spec.get("forged", ()):
+        n = min(SEQ_MAX, seq + lift)
+        b = bytearray(raw)
+        if fkind == "lifted":  # the counter of a recorded frame raised: MAC no longer fits
+            b[12:18] = n.to_bytes(6, "big")
+            if n == seq:
+                b[-1] ^= 0x01
+        elif fkind == "badmac":
+            b[12:18] = n.to_bytes(6, "big")
+            b[-1 - salt % 4] ^= 1 << (salt % 8)
+        elif fkind == "wrongkey":
+            b = bytearray(auth_only_frame(bytes(x ^ 0xA5 for x in key), telegram, sa, n, auth_only=False))
+        else:  # "garbage": minimal A_Sec APDU, no key needed
+            tpdu = bytes((raw[9], 0xF1, 0x10)) + n.to_bytes(6, "big") + salt.to_bytes(4, "big")
+            b = bytearray(raw[:8] + bytes((len(tpdu) - 1,)) + tpdu)
+            b[2] |= 0x80
+        fo = receiver.feed(bytes(b))
+        ctx.count("forged_frames_before_genuine")
+        ctx.count(f"forged_{fkind}")
+        forged_seen.append((fkind, n, fo.kind()))
+        if fo.delivered:
+            ctx.count("forged_frame_delivered")  # C16 / C17 judge that; here it would also consume the counter: stop this case
+            return
     out = receiver.feed(raw)
-    ctx.distinct((kind, path, len(apdu), _seq_class(seq), out.kind()))
-    wit = {"spec": spec, "raw": raw, "outcome": out.kind(), "undecoded": out.undecoded, "parse_error": out.incoming_error}
+    ctx.distinct((kind, path, len(apdu), _seq_class(seq), out.kind(), tuple(f[0] for f in forged_seen)))
+    wit = {"spec": spec, "raw": raw, "outcome": out.kind(), "undecoded": out.undecoded, "parse_error": out.incoming_error,
+           "forged_before": forged_seen}
     if out.exc is not None:
         ctx.violation(f"receiver-raises-{type(out.exc).__name__}", dict(wit, exception=repr(out.exc)[:300]),
                       f"handle_raw_cemi raised {type(out.exc).__name__} on a genuine secured frame")
         return
     got = out.delivered
     if len(got) != 1:
+        if not got and forged_seen:
+            # does the same frame pass when nothing forged came first?
+            clean = Node(noise_keys, noise_senders, own_address=spec["rx"]).feed(raw)
+            if len(clean.delivered) == 1:
+                ctx.violation("genuine-frame-not-delivered-after-forged-frames-from-the-same-sender", wit,
+                              f"{kind}/{path} frame with counter {seq} is refused after rejected forged frames {forged_seen} "
+                              "(a fresh receiver accepts it)")
+                return
         ctx.violation(
             f"genuine-frame-not-delivered-{kind}-{path}" if not got else f"genuine-frame-delivered-{len(got)}-times",
             wit,
@@ -431,6 +466,9 @@ def _spec(ctx, rng, kind, path, payload):
     }
     if own is not None:
         spec["own"] = own
+    if rng.random() < 0.4:
+        spec["forged"] = [[rng.choice(("lifted", "badmac", "wrongkey", "garbage")), rng.choice((0, 1, 7, 1000, 1 << 24, 1 << 40)),
+                           rng.randrange(1 << 32)] for _ in range(rng.randrange(1, 4))]
     if rng.random() < 0.5:
         spec["noise_keys"] = {str(rng.randrange(1, 0x10000)): rng.randbytes(16).hex() for _ in range(3)}
         spec["noise_senders"] = {str(rng.randrange(1, 0x10000)): rng.randrange(0, SEQ_MAX) for _ in range(3)}
@@ -447,7 +485,8 @@ def run(ctx):
         "SecureData.init_from_plain_apdu (authentication only / encryption); distinct = (kind, path, APDU octets, counter size class, outcome)"
     )
     ctx.require("roundtrips_ok", "frames_sync", "frames_send", "frames_auth", "frames_enc-api", "send_with_explicit_source_device_part_0",
-                "send_with_explicit_source_other", "kind_group", "kind_broadcast",
+                "send_with_explicit_source_other", "forged_frames_before_genuine", "forged_lifted", "forged_badmac", "forged_wrongkey",
+                "forged_garbage", "kind_group", "kind_broadcast",
                 "kind_tag", "delivered_via_queue", "delivered_via_management", "sender_sessions_started_from_clock", "restart_frames_delivered",
                 "delivered_after_restart_offset_0.0", "delivered_after_restart_offset_0.001", "delivered_after_restart_offset_0.999",
                 "delivered_after_restart_offset_2.0")
